@@ -26,7 +26,8 @@ Record ialt := {
   a_locations : bool;                      (* tok = ...get_last_non_whitespace_token(); end_lineno, ... *)
   a_action : string;                       (* the expression returned / appended *)
   a_names : list string;                   (* local variable names bound, in order (for the interpreter) *)
-  a_explicit : bool                        (* the action was written in the grammar (or is the UNREACHABLE filler) *)
+  a_explicit : bool;                       (* the action was written in the grammar (or is the UNREACHABLE filler) *)
+  a_unreachable : bool                     (* the action text contained the magic name UNREACHABLE *)
 }.
 
 Inductive deco := DMemo | DMemoLeftRec | DLogger.
@@ -367,7 +368,8 @@ Definition emit_alt (a : alt) (is_loop is_gather : bool) : GM ialt :=
            end ;;
   gret {| a_has_cut := has_cut; a_guard := has_invalid; a_conjs := conjs; a_locations := locations;
           a_action := final; a_names := locals;
-          a_explicit := match action1 with Some _ => true | None => false end |}.
+          a_explicit := match action1 with Some _ => true | None => false end;
+          a_unreachable := unreachable |}.
 
 Fixpoint emit_alts (l : list alt) (is_loop is_gather : bool) : GM (list ialt) :=
   match l with
